@@ -31,6 +31,7 @@ TARGETS = ["PubSub/Model.vo", "PubSub/SubsProofs.vo", "PubSub/EventProofs.vo", "
            "PubSub/TypeModel.vo", "PubSub/TypeProofs.vo", "Props/C08.vo"]
 N_ET = 3
 N_LIS = 4
+N_PROD = 2
 
 TYPES = ["TObject", "TInt", "TBool", "TFloat", "TStr", "TNone", "TList", "TDict", "TBase", "TDerived"]
 VALUE_TYPES = ["TInt", "TBool", "TFloat", "TStr", "TNone", "TList", "TDict", "TBase", "TDerived", "TObject"]
@@ -80,7 +81,7 @@ class Ctx:
             _et_counter[0] += 1
             decl = None if md is None else {KEYS[k]: PYCLASS[t] for k, t in md}
             self.ets.append(pubsub.EventType(f"C08_T{_et_counter[0]}", decl))
-        self.producer = pubsub.EventProducer()
+        self.producers = [pubsub.EventProducer() for _ in range(N_PROD)]
         ctx = self
 
         class Lis(pubsub.EventListener):
@@ -96,11 +97,13 @@ class Ctx:
         self.keep = []          # payload objects kept alive; identity -> tag
         self.ident = {}
         # monitor state
-        self.ref = {}           # reference subscription map: et -> [listener]
+        self.ref = {}           # reference subscription map: (producer, et) -> [listener]
+        self.cross_ops = 0      # operations performed inside notify on a producer other than the notifying one
         self.stack = []         # active fire invocations
         self.invocations = []
         self.findings = []      # (signature, description)
         self.max_depth = 0
+        self.next_inv = 0       # ordinal of the next fire invocation that gets as far as notifying
         self.op_counts = collections.Counter()
         self.nested_ops = 0
 
@@ -216,8 +219,9 @@ class Ctx:
         return "not-an-event"
 
     # ---- performing one operation (at any nesting level) with the monitor
+    # op formats: [add|remove|remove_all, p, et, l]  [has, p]  [raise]  [fire, p, et, c, chk]
+    #             [fire_timed, p, ts, et, c, chk]  [fire_event|fire_timed_event, p, spec]
     def perform(self, op):
-        p = self.producer
         kind = op[0]
         depth = len(self.stack)
         self.op_counts[kind] += 1
@@ -225,17 +229,21 @@ class Ctx:
             self.nested_ops += 1
             if kind.startswith("fire"):
                 self.stack[-1]["nested_fire"] = True
+            if kind != "raise" and op[1] != self.stack[-1]["p"]:
+                self.cross_ops += 1
         if kind == "raise":
             raise UserBoom("listener program raises")
+        pi = op[1]
+        p = self.producers[pi]
         if kind == "has":
             r = p.has_listeners()
             self.trace.append(["h", r] if isinstance(r, bool) else ["bad", repr(r)])
-            exp = any(self.ref.values())
+            exp = any(v for (q, _), v in self.ref.items() if q == pi)
             if r is not exp:
-                self.findings.append(("has-listeners-wrong", f"has_listeners() returned {r!r}, reference map {self.ref} says {exp}"))
+                self.findings.append(("has-listeners-wrong", f"has_listeners() of producer {pi} returned {r!r}, reference map {self.ref} says {exp}"))
             return
         if kind in ("add", "remove", "remove_all"):
-            et, l = op[1], op[2]
+            et, l = op[2], op[3]
             bad = (et == "bad" or l == "bad" or (kind != "remove_all" and (et is None or l is None)))
             try:
                 r = getattr(p, {"add": "add_listener", "remove": "remove_listener",
@@ -251,45 +259,48 @@ class Ctx:
                 self.trace.append(["bad", repr(r)])
             # mirror into the reference map
             if kind == "add":
-                lst = self.ref.setdefault(et, [])
+                lst = self.ref.setdefault((pi, et), [])
                 if l not in lst:
                     lst.append(l)
             elif kind == "remove" or (et is not None and l is not None):
-                if l in self.ref.get(et, []):
-                    self.ref[et].remove(l)
+                if l in self.ref.get((pi, et), []):
+                    self.ref[(pi, et)].remove(l)
             elif et is None and l is None:
-                self.ref = {}
+                for k in self.ref:
+                    if k[0] == pi:
+                        self.ref[k] = []
             elif et is None:
                 for k in self.ref:
-                    if l in self.ref[k]:
+                    if k[0] == pi and l in self.ref[k]:
                         self.ref[k].remove(l)
             else:
-                self.ref[et] = []
+                self.ref[(pi, et)] = []
             return
         # ---- fire family
         if kind == "fire":
-            spec = ["plain", op[1], op[2], op[3]]
+            spec = ["plain", op[2], op[3], op[4]]
         elif kind == "fire_timed":
-            spec = ["timed", op[1], op[2], op[3], op[4]]
+            spec = ["timed", op[2], op[3], op[4], op[5]]
         else:
-            spec = op[1]
+            spec = op[2]
         if spec[0] == "notevent":
             acc, et, c, ts = False, None, None, None
         else:
             acc, et, c, ts = self.expect_event(spec)
             if kind == "fire_timed_event" and spec[0] != "timed":
                 acc = False
-        inv = {"op": op, "et": et, "tag": c["tag"] if c else None, "ts": ts, "accepted": acc,
-               "expected": list(self.ref.get(et, [])) if acc else [], "got": [], "completed": False,
-               "depth": depth, "changed_during": False}
+        inv = {"op": op, "p": pi, "et": et, "tag": c["tag"] if c else None, "ts": ts, "accepted": acc,
+               "expected": list(self.ref.get((pi, et), [])) if acc else [], "got": [], "completed": False,
+               "depth": depth, "changed_during": False, "ordinal": self.next_inv}
+        self.next_inv += 1
         self.invocations.append(inv)
         self.stack.append(inv)
         self.max_depth = max(self.max_depth, depth + 1)
         try:
             if kind == "fire":
-                r = p.fire(self.et_arg(op[1]), self.payload(op[2]), op[3])
+                r = p.fire(self.et_arg(op[2]), self.payload(op[3]), op[4])
             elif kind == "fire_timed":
-                r = p.fire_timed(self.timestamp(op[1]), self.et_arg(op[2]), self.payload(op[3]), op[4])
+                r = p.fire_timed(self.timestamp(op[2]), self.et_arg(op[3]), self.payload(op[4]), op[5])
             elif kind == "fire_event":
                 r = p.fire_event(self.build_event(spec))
             else:
@@ -305,13 +316,19 @@ class Ctx:
             raise
         finally:
             self.stack.pop()
-            if acc and list(self.ref.get(et, [])) != inv["expected"]:
+            if inv.get("raised") == "EventError" and not inv["got"]:
+                # refused before anything was delivered (constructors / isinstance tests; an EventError
+                # coming out of a nested call needs a delivery first): the call does not count as an
+                # invocation, and it cannot have had nested invocations
+                self.next_inv = inv["ordinal"]
+            if acc and list(self.ref.get((pi, et), [])) != inv["expected"]:
                 inv["changed_during"] = True
 
     def on_notify(self, lis, event):
         ts = self.ts_canon(event.timestamp) if isinstance(event, self.ps.TimedEvent) else None
         rec = ["d", lis.idx, self.et_id(event.event_type), self.tag_of(event.content), ts]
-        self.trace.append(rec)
+        # the flat observation also says which fire invocation (ordinal in order of starting) delivers
+        self.trace.append(rec + [self.stack[-1]["ordinal"] if self.stack else -1])
         if self.stack:
             self.stack[-1]["got"].append(rec)
         else:
@@ -372,7 +389,7 @@ class Ctx:
                     sig = "delivery-order"
                 else:
                     sig = "delivery-not-snapshot"
-                self.findings.append((sig, f"{op} at depth {inv['depth']}: subscribers at the moment of firing {el}, "
+                self.findings.append((sig, f"{op} at depth {inv['depth']}: subscribers of producer {inv['p']} at the moment of firing {el}, "
                                            f"deliveries {got}, completed={inv['completed']}"))
 
 
@@ -509,6 +526,9 @@ class Gen:
             return r.choice([None, "bad"])
         return r.randrange(N_ET)
 
+    def prod(self):
+        return 0 if self.rng.random() < 0.65 else self.rng.randrange(1, N_PROD)
+
     def lis(self):
         r = self.rng
         if r.random() < (0.12 if self.mal else 0.01):
@@ -517,48 +537,50 @@ class Gen:
 
     def fire_op(self, env):
         r = self.rng
+        p = self.prod()
         et = self.et()
         md = env[et] if isinstance(et, int) else None
         c = self.content(md, 0.35 if self.mal else 0.12)
         chk = r.random() > (0.3 if self.mal else 0.12)
         x = r.random()
         if x < 0.4:
-            return ["fire", et, c, chk]
+            return ["fire", p, et, c, chk]
         if x < 0.65:
-            return ["fire_timed", self.ts(), et, c, chk]
+            return ["fire_timed", p, self.ts(), et, c, chk]
         if x < 0.85:
             spec = ["plain", et, c, chk] if r.random() < 0.55 else ["timed", self.ts(), et, c, chk]
             if r.random() < (0.1 if self.mal else 0.02):
                 spec = ["notevent"]
-            return ["fire_event", spec]
+            return ["fire_event", p, spec]
         spec = ["timed", self.ts(), et, c, chk]
         y = r.random()
         if y < (0.25 if self.mal else 0.06):
             spec = ["plain", et, c, chk]
         elif y < (0.3 if self.mal else 0.08):
             spec = ["notevent"]
-        return ["fire_timed_event", spec]
+        return ["fire_timed_event", p, spec]
 
     def op(self, env, nested: bool):
         r = self.rng
         x = r.random()
         if x < 0.30:
-            return ["add", self.et(), self.lis()]
+            return ["add", self.prod(), self.et(), self.lis()]
         if x < 0.42:
-            return ["remove", self.et(), self.lis()]
+            return ["remove", self.prod(), self.et(), self.lis()]
         if x < 0.52:
             form = r.random()
+            p = self.prod()
             if form < 0.2:
-                return ["remove_all", None, None]
+                return ["remove_all", p, None, None]
             if form < 0.5:
-                return ["remove_all", None, r.randrange(N_LIS)]
+                return ["remove_all", p, None, r.randrange(N_LIS)]
             if form < 0.75:
-                return ["remove_all", r.randrange(N_ET), None]
+                return ["remove_all", p, r.randrange(N_ET), None]
             if form < 0.88 or not self.mal:
-                return ["remove_all", r.randrange(N_ET), r.randrange(N_LIS)]
-            return ["remove_all"] + r.choice([["bad", None], ["bad", 0], [None, "bad"], [r.randrange(N_ET), "bad"]])
+                return ["remove_all", p, r.randrange(N_ET), r.randrange(N_LIS)]
+            return ["remove_all", p] + r.choice([["bad", None], ["bad", 0], [None, "bad"], [r.randrange(N_ET), "bad"]])
         if x < 0.60:
-            return ["has"]
+            return ["has", self.prod()]
         if nested and x < 0.63:
             return ["raise"]
         return self.fire_op(env)
@@ -573,30 +595,31 @@ class Gen:
         ops = []
         # start from a populated map most of the time
         for _ in range(r.choice([0, 2, 4, 6])):
-            ops.append(["add", r.randrange(N_ET), r.randrange(N_LIS)])
+            ops.append(["add", self.prod(), r.randrange(N_ET), r.randrange(N_LIS)])
         ops += [self.op(env, False) for _ in range(r.randint(4, 18))]
-        # observe the final subscription state through ordinary operations
-        ops.append(["has"])
-        for et in range(N_ET):
-            ops.append(["fire", et, self.content(env[et], 0.0), True])
+        # observe the final subscription state of every producer through ordinary operations
+        for p in range(N_PROD):
+            ops.append(["has", p])
+            for et in range(N_ET):
+                ops.append(["fire", p, et, self.content(env[et], 0.0), True])
         return {"env": env, "scripts": scripts, "ops": ops}
 
 
 def exhaustive_cases(max_len: int):
-    """All op sequences up to max_len over a fixed alphabet on 2 event types x 3 listeners with
-    fixed re-entrant listener programs, followed by probing fires."""
+    """All op sequences up to max_len over a fixed 14-op alphabet on 2 producers x 2 event types x 3 listeners
+    with fixed re-entrant (and cross-producer) listener programs, followed by probing fires."""
     pay = lambda tag: {"tag": tag, "nondict": "TInt"}
     scripts = [
-        [[["remove", 0, 1]], [["add", 0, 2]]],                              # L0: unsubscribes L1, later subscribes L2
-        [[["fire", 1, pay(50), True]], [["remove_all", None, 1]]],            # L1: nested fire, later removes itself everywhere
-        [[["add", 1, 0], ["remove", 0, 2]]],                                  # L2
+        [[["remove", 0, 0, 1]], [["add", 0, 0, 2]]],                             # L0: unsubscribes L1, later subscribes L2
+        [[["fire", 1, 1, pay(50), True]], [["remove_all", 0, None, 1]]],           # L1: nested fire on the other producer, later removes itself
+        [[["add", 0, 1, 0], ["remove", 0, 0, 2]]],                                 # L2
         [],
     ]
-    alphabet = ([["add", e, l] for e in (0, 1) for l in (0, 1)] + [["add", 0, 2]]
-                + [["remove", 0, 0], ["remove", 0, 1], ["remove", 1, 1]]
-                + [["remove_all", None, None], ["remove_all", None, 0], ["remove_all", 0, None], ["remove_all", 1, 1]]
-                + [["fire", 0, pay(60), True], ["fire_timed", ["TInt", 5], 1, pay(61), True]])
-    tail = [["has"], ["fire", 0, pay(70), True], ["fire", 1, pay(71), True]]
+    alphabet = ([["add", 0, 0, 0], ["add", 0, 0, 1], ["add", 0, 1, 1], ["add", 0, 0, 2], ["add", 1, 1, 0]]
+                + [["remove", 0, 0, 0], ["remove", 0, 0, 1], ["remove", 0, 1, 1]]
+                + [["remove_all", 0, None, None], ["remove_all", 0, None, 0], ["remove_all", 0, 0, None], ["remove_all", 0, 1, 1]]
+                + [["fire", 0, 0, pay(60), True], ["fire_timed", 1, ["TInt", 5], 1, pay(61), True]])
+    tail = [["has", 0], ["fire", 0, 0, pay(70), True], ["fire", 0, 1, pay(71), True], ["has", 1], ["fire", 1, 1, pay(72), True]]
     for ln in range(1, max_len + 1):
         for ops in itertools.product(alphabet, repeat=ln):
             yield {"env": [None, None, None], "scripts": scripts, "ops": [list(o) for o in ops] + tail}
@@ -705,24 +728,25 @@ def cspec(s):
 
 def cop(op):
     k = op[0]
-    if k == "add":
-        return f"OAdd {carg(op[1])} {carg(op[2])}"
-    if k == "remove":
-        return f"ORemove {carg(op[1])} {carg(op[2])}"
-    if k == "remove_all":
-        return f"ORemoveAll {carg(op[1])} {carg(op[2])}"
-    if k == "has":
-        return "OHas"
     if k == "raise":
         return "ORaise"
+    p = op[1]
+    if k == "add":
+        return f"OAdd {p} {carg(op[2])} {carg(op[3])}"
+    if k == "remove":
+        return f"ORemove {p} {carg(op[2])} {carg(op[3])}"
+    if k == "remove_all":
+        return f"ORemoveAll {p} {carg(op[2])} {carg(op[3])}"
+    if k == "has":
+        return f"OHas {p}"
     if k == "fire":
-        return f"OFire {carg(op[1])} {ccontent(op[2])} {C.cbool(op[3])}"
+        return f"OFire {p} {carg(op[2])} {ccontent(op[3])} {C.cbool(op[4])}"
     if k == "fire_timed":
-        return f"OFireTimed {cts(op[1])} {carg(op[2])} {ccontent(op[3])} {C.cbool(op[4])}"
+        return f"OFireTimed {p} {cts(op[2])} {carg(op[3])} {ccontent(op[4])} {C.cbool(op[5])}"
     if k == "fire_event":
-        return f"OFireEvent {cspec(op[1])}"
+        return f"OFireEvent {p} {cspec(op[2])}"
     if k == "fire_timed_event":
-        return f"OFireTimedEvent {cspec(op[1])}"
+        return f"OFireTimedEvent {p} {cspec(op[2])}"
     raise ValueError(op)
 
 
@@ -732,10 +756,10 @@ def cmd(md):
 
 def ciobs(o):
     if o[0] == "d":
-        _, l, et, tag, ts = o
-        if l < 0 or et < 0 or tag < 0 or (ts is not None and ts[0] == "bad"):
+        _, l, et, tag, ts, inv = o
+        if l < 0 or et < 0 or tag < 0 or inv < 0 or (ts is not None and ts[0] == "bad"):
             return "IOther"
-        return f"IDeliver {l} {et} {tag} " + ("None" if ts is None else f"(Some {cts(ts)})")
+        return f"IDeliver {inv} {l} {et} {tag} " + ("None" if ts is None else f"(Some {cts(ts)})")
     if o[0] == "h":
         return f"IHas {C.cbool(o[1])}"
     if o[0] == "ret":
@@ -822,6 +846,7 @@ def main(tier: str) -> int:
     depth_hist = collections.Counter()
     n_deliveries = 0
     n_nested = 0
+    n_cross = 0
     first_bad = None
     for case in cases:
         try:
@@ -832,6 +857,7 @@ def main(tier: str) -> int:
             return run.finish()
         op_hist.update(ctx.op_counts)
         n_nested += ctx.nested_ops
+        n_cross += ctx.cross_ops
         for o in trace:
             if o[0] == "raise":
                 exc_hist[o[1]] += 1
@@ -885,7 +911,7 @@ def main(tier: str) -> int:
     mark("event_type_cases_on_impl")
     run.cov["evaluations"] = len(done) + len(ctor_in) + len(tdone)
     run.cov["distinct_nontrivial"] = len(nontrivial)
-    run.cov["rule"] = (f"{n_random} random + {n_mal} malformed-stream op sequences over {N_ET} event types x {N_LIS} listeners with scripted "
+    run.cov["rule"] = (f"{n_random} random + {n_mal} malformed-stream op sequences over {N_PROD} producers x {N_ET} event types x {N_LIS} listeners with scripted "
                        f"re-entrant listeners + all {n_exh} sequences of length <= {exh_len} over a 14-op alphabet with fixed re-entrant listeners "
                        f"+ {len(ctor_in)} Event/TimedEvent constructions (payload shape x metadata x check x timestamp kind) "
                        f"+ {len(tdone)} EventType construction sequences (4 defining sites x names x str/non-str keys x type/non-type values, "
@@ -897,6 +923,7 @@ def main(tier: str) -> int:
     run.cov["max_fire_nesting_depth_histogram"] = {str(k): v for k, v in sorted(depth_hist.items())}
     run.cov["deliveries_observed"] = n_deliveries
     run.cov["operations_performed_inside_notify"] = n_nested
+    run.cov["of_which_on_another_producer"] = n_cross
     run.cov["constructions"] = {"total": len(ctor_in), "accepted": n_ctor_acc}
     run.cov["exhaustive_small_scope_sequences"] = n_exh
     run.cov["event_type_constructions"] = dict(t_hist)
@@ -920,7 +947,8 @@ def main(tier: str) -> int:
         what = [w for s, w in f if s == sig][0]
         run.violation(sig, what, {"case": small, "impl_observations": tr,
                                   "how": "harness/c08.py run_impl(case): env = metadata per event type, scripts[l] = programs listener l "
-                                         "performs on its successive notifications, ops = outermost calls on one EventProducer"})
+                                         "performs on its successive notifications, ops = outermost calls; every op names the producer "
+                                         "(second field) it is called on; ./check C08 --replay <this file> re-runs it"})
     if ctor_bad:
         impl_fail = True
         (md, ts, c, chk), acc, exp = ctor_bad
